@@ -31,6 +31,11 @@ def rand_scalar(rng):
     return dict(rng.choice(SCALARS))
 
 
+def rand_set(rng):
+    pool = [{'k': 'int', 'i': 1}, {'k': 'int', 'i': 2}, {'k': 'str', 's': 'a'}, {'k': 'none'}]
+    return {'k': 'c', 'cls': rng.choice(['set', 'frozenset']), 'items': rng.sample(pool, rng.randint(0, 3))}
+
+
 def rand_tree(rng, depth, hashable=False):
     if depth <= 0 or rng.random() < 0.35:
         return rand_scalar(rng)
@@ -70,10 +75,12 @@ def gen_leaf(rng, hashable_only=False):
         return {'op': 'regex', 'name': rng.choice(['ra', 'rb', 'rs', 'rA']), 'func': rng.choice(['fullmatch', 'match', 'search']),
                 'flags': rng.choice(['', '', 'I'])}
     if r < 0.72:
-        return {'op': 'pred', 'name': rng.choice(['yes', 'no', 'truthy', 'isnum', 'falsy', 'boom']), 'id': 0}
+        return {'op': 'pred', 'name': rng.choice(['yes', 'no', 'truthy', 'isnum', 'falsy', 'boom', 'boom_attr', 'recip', 'head']), 'id': 0}
     if r < 0.95:
         rhs = rng.choice([{'k': 'int', 'i': 0}, {'k': 'int', 'i': 1}, {'k': 'str', 's': 'a'}, {'k': 'str', 's': 'b'},
                           {'k': 'none'}, {'k': 'bool', 'b': True}])
+        if rng.random() < 0.2:               # a set operand: inclusion is only a partial order
+            rhs = rand_set(rng)
         return {'op': 'm', 'cmp': rng.choice(['==', '!=', '<', '>', '<=', '>=']), 'rhs': rhs, 'refl': rng.random() < 0.3}
     return {'op': 'mtruthy'}
 
@@ -259,6 +266,11 @@ def conforming(rng, p, hashable=False):
     if op == 'match':
         return conforming(rng, p['sub'], hashable)
     if op in ('m', 'mtruthy', 'pred'):
+        if op == 'm' and p['rhs']['k'] == 'c' and p['rhs']['cls'] in ('set', 'frozenset'):
+            st = rand_set(rng)               # comparable or not: both are of interest
+            if hashable:
+                st['cls'] = 'frozenset'
+            return st
         cands = [v for v in SCALARS if _holds_scalar(p, v)]
         return dict(rng.choice(cands)) if cands else None
     if op == 'and':
